@@ -238,15 +238,22 @@ impl CrateCollection {
     #[verifier::external_body]
     pub fn new_pavex(toolchain: String, g: PackageGraph, f: String, cache: bool, sink: DiagnosticSink) -> (r: Result<Self, AnyhowError>) { unimplemented!() }
 }
+/// C09 "fails atomically": ghost constants of one `pavexc generate` run — did the analysis accept the blueprint, did code
+/// generation succeed. The SDK may be touched only when both hold (protocol precondition of GeneratedApp::persist).
+pub uninterp spec fn analysis_accepted() -> bool;
+pub uninterp spec fn codegen_succeeded() -> bool;
+pub open spec fn sdk_may_be_written() -> bool { analysis_accepted() && codegen_succeeded() }
 #[verifier::external_body] pub struct App { _p: u8 }
 impl App {
     /// pavexc::App::build: on success the sink holds warnings only (that is what `generate` asserts)
     #[verifier::external_body]
     pub fn build(bp: Blueprint, c: CrateCollection, sink: DiagnosticSink) -> (r: Result<(App, DiagnosticSink), DiagnosticSink>)
-        ensures r matches Ok(p) ==> forall |i: int| 0 <= i < sink_reports(&p.1).len() ==> report_severity(&#[trigger] sink_reports(&p.1)[i]) == Some(Severity::Warning)
+        ensures r matches Ok(p) ==> forall |i: int| 0 <= i < sink_reports(&p.1).len() ==> report_severity(&#[trigger] sink_reports(&p.1)[i]) == Some(Severity::Warning),
+            // C09: the verdict of the analysis is a ghost constant of the run (App::build is the compiler proper: an oracle here)
+            (r is Ok) == analysis_accepted(),
     { unimplemented!() }
     #[verifier::external_body] pub fn diagnostic_representation(&self) -> (r: AppDiagnostics) { unimplemented!() }
-    #[verifier::external_body] pub fn codegen(&self) -> (r: Result<GeneratedApp, AnyhowError>) { unimplemented!() }
+    #[verifier::external_body] pub fn codegen(&self) -> (r: Result<GeneratedApp, AnyhowError>) ensures (r is Ok) == codegen_succeeded() { unimplemented!() }
 }
 /// anyhow::Context on Result<T, anyhow::Error>
 pub trait Context<T> { fn context(self, msg: &str) -> Result<T, AnyhowError>; }
